@@ -102,6 +102,15 @@ def make_ragged(spec, path):
             ra.readcode(spec['lang'])
         ra.readcode(spec['lang'])
         ra.iterappend(feed())
+    elif items and churn == 'r-ask-r+-append-r-ask' and len(items) >= 2:
+        # a READ-ONLY handle is asked for code, switched to r+, the array grows through it, it is switched back to 'r' and asked again
+        darr.asraggedarray(path, items[:1], dtype=dt, indextype=spec['it'])
+        ra = darr.RaggedArray(path)           # accessmode 'r'
+        ra.readcode(spec['lang'])
+        ra.readcodelanguages
+        ra.accessmode = 'r+'
+        ra.iterappend(items[1:])
+        ra.accessmode = 'r'
     elif items and churn == 'trunc-last':
         # the last thing that happened to the handle is a truncation (after it had been asked for code at the larger length)
         extra = [np.ascontiguousarray(pool[:1]), np.ascontiguousarray(pool[:min(len(pool), 2)])]
@@ -225,7 +234,11 @@ def _execute(ctx, spec):
                 os.symlink(os.path.join(root, 'data', 'sub'), os.path.join(other, 'deep', 'sl'))
                 darr.asraggedarray(os.path.join(other, 'deep', 'x.darr'), [[9, 9, 9]], dtype='int8')
                 ra = darr.RaggedArray(os.path.join(other, 'deep', 'sl', '..', 'x.darr'))
-            if spec.get('seed', 1) % 4 == 3 or spec.get('positional'):
+            if spec.get('both') and pm == 'abs':
+                # absolute paths requested AND a base path given: 'abspath: should the paths be absolute or not' - they are
+                out.cls('call:abspath-and-basepath')
+                code = ra.readcode(lang, abspath=True, basepath=bparg)
+            elif spec.get('seed', 1) % 4 == 3 or spec.get('positional'):
                 out.cls('call:positional-arguments')
                 code = ra.readcode(lang, pm == 'abs', bparg if pm == 'base' else None)
             else:
@@ -394,7 +407,7 @@ def extra_specs():
         for lens in ([2, 3, 1], [1, 0, 4, 2]):
             yield {'lang': lang, 'vt': 'int16', 'it': 'int32', 'atom': [2], 'lens': lens, 'bo': '<', 'pm': 'rel', 'seed': 3, 'churn': True}
         for lens in ([3], [2, 1], [1, 0, 4, 2], [2, 0]):
-            for churn in ('trunc-last', 'ask-append-empties-ask', 'ask-trunc-empties-ask', 'ask-during-iterappend'):
+            for churn in ('trunc-last', 'ask-append-empties-ask', 'ask-trunc-empties-ask', 'ask-during-iterappend', 'r-ask-r+-append-r-ask'):
                 yield {'lang': lang, 'vt': 'float32', 'it': 'int64', 'atom': [], 'lens': lens, 'bo': '<', 'pm': 'rel', 'seed': 5, 'churn': churn}
                 yield {'lang': lang, 'vt': 'int16', 'it': 'int32', 'atom': [2], 'lens': lens, 'bo': '>', 'pm': 'abs', 'seed': 6, 'churn': churn}
     # path modes
@@ -424,6 +437,7 @@ def large_specs(thorough):
 
 def path_specs():
     for lang in LANGS:
+        yield {'lang': lang, 'vt': 'int16', 'it': 'int64', 'atom': [], 'lens': [2, 1], 'bo': '<', 'pm': 'abs', 'seed': 2, 'both': True}
         for pm in ('rel', 'abs'):
             yield {'lang': lang, 'vt': 'int32', 'it': 'int64', 'atom': [2], 'lens': [2, 0, 1], 'bo': '<', 'pm': pm, 'seed': 2, 'legacy': True}
         for bp in ('empty', 'dot', 'dotslash', 'emptypath', 'dotpath'):
@@ -441,10 +455,10 @@ def st_spec(draw):
         lens[draw(st.integers(0, len(lens) - 1))] = 1
     return {'lang': draw(st.sampled_from(LANGS)), 'vt': draw(st.sampled_from(NUMTYPES)), 'it': draw(st.sampled_from(INDEXTYPES)), 'atom': atom,
             'lens': lens, 'bo': draw(st.sampled_from('<>')), 'pm': draw(st.sampled_from(['rel', 'base', 'abs'])), 'seed': draw(st.integers(0, 2 ** 20)),
-            'churn': draw(st.sampled_from([False, False, True, 'trunc-last', 'ask-append-empties-ask', 'ask-trunc-empties-ask', 'ask-during-iterappend'])),
+            'churn': draw(st.sampled_from([False, False, True, 'trunc-last', 'ask-append-empties-ask', 'ask-trunc-empties-ask', 'ask-during-iterappend', 'r-ask-r+-append-r-ask'])),
             'relopen': draw(st.booleans()), 'via': draw(st.sampled_from([None, None, None, 'symlink-dotdot'])),
             'names': draw(st.sampled_from([None, None, None, 'unicode', 'space-dash', 'cjk'])), 'bp': draw(st.sampled_from([None, None, None, None, 'empty', 'dot', 'dotslash', 'emptypath', 'dotpath'])),
-            'legacy': draw(st.sampled_from([False, False, False, True]))}
+            'legacy': draw(st.sampled_from([False, False, False, True])), 'both': draw(st.sampled_from([False, False, True]))}
 
 
 def task_enum(ctx, col, shard, stride):
